@@ -24,7 +24,8 @@ META = {
              'generating spec (exactly for order-preserving layouts, up to list order otherwise); the two shipped '
              'coreLang .mar specs are printed and recompiled in every shard (reference-compiler output); '
              'non-trivial = spec contains a non-atomic step expression or a composite TTC; distinct = digest(spec, layout kind)'
-             '; added strata: meta strings with CR / CRLF / NEL / FF, a broken version of one file compiled at the same path first (fix-and-recompile session), per-case CPU budget'),
+             '; added strata: meta strings with CR / CRLF / NEL / FF, a broken version of one file compiled at the same path first (fix-and-recompile session), per-case CPU budget'
+             '; round 7: every spelling of a multiplicity (*..N, *..*)'),
     'assumptions': ['the printer mtv/malprint.py emits the text denoted by the spec (validated by the 0-difference round '
                     'trip of both malc-compiled coreLang specs)', 'malc itself is not available offline: for random '
                     'programs the oracle is the generating spec'],
